@@ -486,7 +486,55 @@ def run_extra(ctx):
     ctx.anchor("R17.5", "attributed items with args/types/consts analysed", n, 20)
 
 
+def type_cast_rule(ctx, rule, prog, crate):
+    """The checked downcast every "is this value of that type" decision goes through (argument types in BenchArgs, counter
+    kinds in AnyCounter::new): cast_ref::<T>() yields Some(self reinterpreted) exactly when is_type_eq::<Self, T>() holds
+    and None otherwise; is_type_eq::<A, B>() compares the type ids of A and of B; proxy_type_id::<T>() is the id of a
+    closure type that mentions T."""
+    from lib.patheval import PathEval
+    U = "util::ty::"
+    cr, te, pt = prog.body(U + "TypeCast::cast_ref", crate), prog.body(U + "is_type_eq", crate), prog.body(U + "proxy_type_id", crate)
+    if not ctx.anchor(rule, "cast_ref, is_type_eq, proxy_type_id", sum(1 for x in (cr, te, pt) if x), 3):
+        return
+    for x in (cr, te, pt):
+        ctx.saw(x)
+    sums = PathEval(cr).run()
+    if ctx.check(bool(sums), rule, ["cast_ref", "readable"], "cannot summarise cast_ref", cr.where(0)):
+        for s in sums:
+            tests = [(a, p) for a, p in s.conds if a[0] == "bool" and a[1][0] == "site" and a[1][1] == U + "is_type_eq"]
+            if not ctx.check(len(tests) == 1 and len(s.conds) == 1, rule, ["cast_ref", "decided-by-is_type_eq"], "a path of cast_ref is decided by %s" % (s.conds,), cr.where(s.blocks[-1])):
+                continue
+            call = cr.call_at(tests[0][0][1][2])
+            ctx.check([norm(g) for g in call.gargs] == ["Self", "T"], rule, ["cast_ref", "compares-Self-with-T"], "cast_ref tests is_type_eq::<%s>()" % ", ".join(call.gargs), call.line())
+            if tests[0][1]:
+                ok = s.ret[0] == "adt" and s.ret[2] == "Some" and s.ret[3] == (("sptr", (1, ())),)
+                ctx.check(ok, rule, ["cast_ref", "same-type", "some-self"], "when the types are equal cast_ref returns %s, expected Some(self)" % (s.ret,), cr.where(s.blocks[-1]))
+            else:
+                ok = s.ret[0] == "adt" and s.ret[2] == "None"
+                ctx.check(ok, rule, ["cast_ref", "other-type", "none"], "when the types differ cast_ref returns %s, expected None" % (s.ret,), cr.where(s.blocks[-1]))
+    sums = PathEval(te).run()
+    r = sums[0].ret if sums and len(sums) == 1 else None
+    ok = r is not None and r[0] == "site" and r[1].endswith("PartialEq>::eq") and len(r[3]) == 2 and all(x[0] == "site" and x[1] == U + "proxy_type_id" for x in r[3])
+    if ok:
+        g = sorted(norm(te.call_at(x[2]).gargs[0]) for x in r[3])
+        ok = g == ["A", "B"]
+    ctx.check(ok, rule, ["is_type_eq", "ids-of-A-and-B"], "is_type_eq returns %s, expected proxy_type_id::<A>() == proxy_type_id::<B>()" % (r,), te.where(0))
+    cl = [x for x in prog.children(pt) if x.kind == "Closure"]
+    tid = [c for c in pt.live_calls() if c.callee.endswith("Any>::type_id")]
+    ok = len(cl) == 1 and len(tid) == 1 and len(pt.live_calls()) == 1 and "closure" in str(tid[0].gargs)
+    if ok:
+        # the closure's value mentions T (PhantomData<T>)
+        rt = cl[0].local_ty(0) or ""
+        ok = "PhantomData<T>" in rt
+    ctx.check(ok, rule, ["proxy_type_id", "id-of-a-closure-over-T"], "proxy_type_id is not the type id of a closure returning PhantomData<T>", pt.where(0))
+
+
+def r17_7(ctx, prog, crate):
+    type_cast_rule(ctx, "R17.7", prog, crate)
+
+
 def run(ctx, prog, crate):
+    r17_7(ctx, prog, crate)
     r17_6(ctx, prog, crate)
     r17_1(ctx, prog, crate)
     r17_2(ctx, prog, crate)
